@@ -21,6 +21,7 @@ def run_subcase(prop, case, env_extra, tmpdir, timeout=900):
 		json.dump({'property': prop, 'case': case}, f)
 	env = dict(os.environ)
 	env['PYTHONHASHSEED'] = '0'
+	env.pop('VERIF_KEEP_HASHSEED', None)
 	for k, v in (env_extra or {}).items():
 		if v is None:
 			env.pop(k, None)
